@@ -497,6 +497,9 @@ class C07(Prop):
                 continue
             if not r.startswith('(ok'):
                 fails.append('write failed: ' + r); continue
+            if size_n(r) != n:
+                # "the bytes written" are the first <returned> bytes: the RFC image has n of them
+                fails.append('write returned %s for a packet whose image has %d bytes' % (r, n)); continue
             got = canon_fir_bytes(line, b[:n])
             if got != want:
                 fails.append('written bytes %s differ from the RFC image %s' % (got.hex()[:200], want.hex()[:200]))
@@ -759,11 +762,43 @@ def gen_parse_mixed(g, h, n, tier):
         out.append('parse %s %s' % (e, hx(b)))
     return out
 
+def fci_probes(tier):
+    """Raw FCI decoders on inputs of 256 KiB and more (no RTCP packet can carry them, the public FciParser entry
+    points take any slice): 65535 / 65536 / 65537 entries.  The extracted model is quadratic on these (tail_from per
+    entry), so they are run on the implementation alone and judged by the closed form of the reference decoders
+    (C15_*_is_reference_decoding): a constant word repeated W times decodes to its entries repeated W times."""
+    out = []
+    def expect_list(entry_obs, w):
+        return '(' + ' '.join([entry_obs] * w) + ')'
+    def judge(name, want):
+        def f(a):
+            r = a.get('r', '')
+            if r == want:
+                return None
+            return '%s: decoded %s...%s (%d chars), expected %s...%s (%d chars)' % (name, r[:60], r[-40:], len(r), want[:60], want[-40:], len(want))
+        return f
+    ws = [65536, 65537] if tier == 'quick' else [65535, 65536, 65537, 70000]
+    for w in ws:
+        out.append(('parse fci:nack %s' % ('00000000' * w), judge('NACK, %d words (0, 0)' % w, '(ok ((ok %s) (ok fused)))' % expect_list('#0', w)),
+                    'C15 NACK reference decoding: one PID per word'))
+        out.append(('parse fci:nack %s' % ('fffe8001' * w),
+                    judge('NACK, %d words (0xfffe, 0x8001)' % w, '(ok ((ok %s) (ok fused)))' % expect_list('#fffe #ffff #e', w)),
+                    'C15 NACK reference decoding: PID, PID+k mod 2^16 for every set bit k'))
+        out.append(('parse fci:sli %s' % ('00010002' * w), judge('SLI, %d entries' % w, '(ok (ok %s))' % expect_list('(#0 #400 #2)', w)),
+                    'C15 SLI reference decoding: one (first, number, picture id) per word'))
+    for w in ([32769] if tier == 'quick' else [32767, 32768, 32769]):
+        out.append(('parse fci:fir %s' % ('0000000105000000' * w), judge('FIR, %d entries' % w, '(ok (ok %s))' % expect_list('(#1 #5)', w)),
+                    'C15 FIR reference decoding: one (SSRC, sequence) per 8 bytes'))
+    return out
+
 class C01(Prop):
+    def probes(self, tier):
+        return fci_probes(tier)
     name = 'no panic / bounded iteration over every accessor of every accepted value'
     rule = ('every parsing entry point on images of valid configurations, structure-aware mutations of them, cross-entry '
-            'inputs, random framed headers and raw FCI strings; non-trivial = distinct input not rejected by the version or '
-            'type check')
+            'inputs, random framed headers and raw FCI strings; raw FCI decoders on 65536 / 65537 entries (256 KiB and more) as '
+            'implementation-only probes judged by the closed form of the reference decoders; non-trivial = distinct input '
+            'not rejected by the version or type check')
     def cases(self, g, tier, h):
         out = gen_header_sweep(g, full=(tier != 'quick')) + gen_parse_mixed(g, h, 500 if tier == 'quick' else 20000, tier)
         # the largest length field (0xffff = 262144 bytes): 16-bit arithmetic in the iterator and the parsers
@@ -933,9 +968,11 @@ class C18(Prop):
         mn = ENTRY_MIN.get(entry)
         if entry.startswith('custom'):
             mn = int(entry.split(':')[2])
-        if entry == 'compound' and len(b) < 4:
-            # shorter than one common header: the compound parser's own minimum
-            if e != ['Truncated', '4', str(len(b))]:
+        if entry == 'compound':
+            # C18_compound_exact: Truncated with the real length; shorter than one header: exactly the minimum 4
+            if e[0] != 'Truncated' or S.num(e[2]) != len(b):
+                fails.append('compound parser reports %s on an input of %d bytes' % (ser(e), len(b)))
+            elif len(b) < 4 and e != ['Truncated', '4', str(len(b))]:
                 fails.append('compound input shorter than one header reported as %s' % ser(e))
         if mn is not None:
             if len(b) < mn:
